@@ -310,6 +310,36 @@ def check_c11(prop, tier, seed):
                              'family_texts': ntexts, 'family_exhaustive': True})
 
 
+def member_names():
+    from . import core
+    lib = core.load_lib()
+    return list(lib.AnsiFormat.__members__)
+
+
+def check_c14(prop, tier, seed):
+    t0 = time.time()
+    design = design_runs(prop, tier)
+    thorough = tier == 'thorough'
+    names = member_names()
+    if thorough:
+        sel = names
+    else:
+        rnd = __import__('random').Random(seed)
+        sel = names[:60] + rnd.sample(names[60:], 100)
+    block = 8
+    c1 = campaign.run_campaign('sp_names', (len(sel) + block - 1) // block, seed, names=sel, block=block, per_shard_max=100000)
+    c2 = campaign.run_campaign('sp_codes', 1, seed)
+    c3 = campaign.run_campaign('sp_colours', 1, seed)
+    c4 = campaign.run_campaign('sp_mix', 120 if thorough else 14, seed, names=names, block=100)
+    return report(prop, tier, seed, t0, merge(c1, c2, c3, c4), design,
+                  extra_cov={'rule': '%d AnsiFormat names x 10 spellings (member, 3 letter cases x 3 separators); every code 0..255 as '
+                                     'int/str/verbatim; integer runs with the colour group at any position in 4 encodings; rgb()/color256() '
+                                     'helper calls and string spellings over boundary values, hex/decimal, brackets, spaces; malformed '
+                                     'strings; random mixtures nested to depth 3, ;-joined strings, bad names/types, self-containing list'
+                                     % len(sel),
+                             'names_total': len(names), 'names_covered': len(sel), 'exhaustive': thorough})
+
+
 def check_c13(prop, tier, seed):
     t0 = time.time()
     design = design_runs(prop, tier)
@@ -322,7 +352,7 @@ def check_c13(prop, tier, seed):
 
 
 CHECKS = {p: check_history for p in HIST}
-CHECKS.update({'C11': check_c11, 'C13': check_c13, 'C18': check_c18, 'C19': check_c19, 'C15': check_c15})
+CHECKS.update({'C11': check_c11, 'C13': check_c13, 'C14': check_c14, 'C18': check_c18, 'C19': check_c19, 'C15': check_c15})
 CHECKS.update({'C01': check_c01, 'C02': check_c02, 'C03': check_c03})
 
 
